@@ -56,9 +56,15 @@ func (o *OnceHandle) Once() Component {
 			return nil
 		}
 		v.setHasBeenRendered(o)
+		// Take the children out of the context while rendering, as generated components do,
+		// so that components rendered inside don't receive them as their own children.
+		children := GetChildren(ctx)
+		saved := v.children
+		v.children = nil
+		defer func() { v.children = saved }()
 		if o.c != nil {
 			return o.c.Render(ctx, w)
 		}
-		return GetChildren(ctx).Render(ctx, w)
+		return children.Render(ctx, w)
 	})
 }
